@@ -214,6 +214,14 @@ func reifyMap(opts *options, to reflect.Value, from *Config, validators []valida
 		key := reflect.ValueOf(k)
 
 		old := to.MapIndex(key)
+		if old.IsValid() && !old.CanAddr() {
+			// map elements are not addressable: merge into a copy, which is
+			// stored in the map afterwards
+			tmp := reflect.New(old.Type()).Elem()
+			tmp.Set(old)
+			old = tmp
+		}
+
 		var v reflect.Value
 		var err Error
 
